@@ -277,6 +277,52 @@ Proof.
   now rewrite (last_delivery_is_final_state _ _ _ _ _ _ _ _ (w_svc w) Hd Hf Hfails).
 Qed.
 
+(* ---- the manual side: the last delivered manual text is the final KV state's ---- *)
+Fixpoint man_texts (h : list event) : list str :=
+  match h with
+  | [] => []
+  | Man t :: r => t :: man_texts r
+  | Svc _ :: r => man_texts r
+  end.
+Lemma last_man_texts h : forall d, last_man h d = last (man_texts h) d.
+Proof.
+  induction h as [|[t|t] h IH]; intros d; cbn [last_man man_texts]; [reflexivity | apply IH |].
+  rewrite IH. symmetry. apply last_cons_default.
+Qed.
+Definition kv_failed (o : kv_observation) : bool := match o with KvErr => true | KvState _ => false end.
+Lemma kv_deliveries_all_failed fails : forallb kv_failed fails = true -> kv_deliveries fails = [].
+Proof.
+  induction fails as [|[|p] fails IH]; cbn [forallb kv_failed andb]; [reflexivity | exact IH | discriminate].
+Qed.
+Theorem last_manual_is_final_kv obs pairs fails h d :
+  man_texts h = kv_deliveries (obs ++ KvState pairs :: fails) ->
+  forallb kv_failed fails = true ->
+  last_man h d = kv_text pairs.
+Proof.
+  intros H Hf. rewrite last_man_texts, H. unfold kv_deliveries. rewrite flat_map_app. cbn [flat_map].
+  fold (kv_deliveries fails). rewrite (kv_deliveries_all_failed fails Hf). cbn [app]. apply last_last.
+Qed.
+
+(* quiescence in terms of the registry AND the KV store: once the health/catalog view stops
+   changing at the state observed in round [final] and the KV path at [pairs] (later rounds of
+   either watcher, if any, fail), the active table is the table of final's config followed by the
+   operator's text for [pairs] *)
+Theorem watch_quiescent_registry (table : Type) (build : str -> option table)
+        prefix status strict obs final fails tf kobs pairs kfails (w : wstate table) h e T :
+  inv table build w ->
+  svc_texts (h ++ [e]) = watch_deliveries prefix status strict (obs ++ final :: fails) ->
+  observe_config prefix status strict final = Ok tf ->
+  forallb (fun o => negb (delivers prefix status strict o)) fails = true ->
+  man_texts (h ++ [e]) = kv_deliveries (kobs ++ KvState pairs :: kfails) ->
+  forallb kv_failed kfails = true ->
+  build (next_text tf (kv_text pairs)) = Some T ->
+  w_active (run table build w (h ++ [e])) = T /\ w_first (run table build w (h ++ [e])) = true.
+Proof.
+  intros Hw Hd Hf Hfails Hk Hkf Hb. apply watch_quiescent; [exact Hw|].
+  rewrite (last_delivery_is_final_state _ _ _ _ _ _ _ _ (w_svc w) Hd Hf Hfails).
+  now rewrite (last_manual_is_final_kv _ _ _ _ (w_man w) Hk Hkf).
+Qed.
+
 (* non-vacuity: a concrete builder and a history with an invalid candidate in the middle *)
 Example watch_nonvacuous :
   let build := fun t : str => if has_prefix t (bs "bad") then None else Some t in
